@@ -175,7 +175,7 @@ class C13(Property):
 
     def cases(self, tier, rng):
         lines = []
-        k = 1500 if tier == "quick" else 300000
+        k = 4000 if tier == "quick" else 300000
         ill_i = [None, None, None, "bad_header", "missing_header", "range", "nonnumeric", "arity", "after_blank"]
         ill_a = [None, None, None, "undeclared", "arg_after_att", "syntax"]
         for i in range(k):
@@ -296,7 +296,7 @@ class C14(Property):
 
     def cases(self, tier, rng):
         lines = []
-        k = 800 if tier == "quick" else 80000
+        k = 2500 if tier == "quick" else 80000
         for _ in range(k):
             u = rng.randint(1, 7)
             universe = rng.sample(range(1, 40), u)
